@@ -31,12 +31,23 @@ def run(ctx):
                     v[pos] = min(hi, max(lo, v[pos] + d))
                 verts.append(tuple(v))
             ctx.count("int64_extreme_cases")
+        elif it % 6 == 4:
+            # long states: 255..520 positions, states differing from the central one in (almost) every position (a count kept in 8 bits wraps)
+            n = rng.choice([255, 256, 257, 300, 520])
+            central = list(range(n)) if rng.random() < 0.5 else [rng.randrange(3) for _ in range(n)]
+            gd = {"kind": "perm", "gens": [[(i + 1) % n for i in range(n)]], "central": central}
+            verts = [tuple(central[k_:] + central[:k_]) for k_ in (1, 2, n // 2)] + [tuple(reversed(central)), tuple(central)]
+            if central == list(range(n)):
+                verts.append(tuple((v + 1) % n for v in central))        # differs in every position
+            ctx.count("long_state_cases")
         else:
             gd = G.gen_graph(rng, cap=300)
             layers, dist = G.ref_bfs(gd, [gd["central"]])
             verts = sorted(dist)
         bs = rng.choice([1, 2, 3, 5, 7, 2**20])
         cfgd = G.gen_config(rng, gd)
+        if len(gd["central"]) > 200:
+            cfgd["bit_encoding_width"] = rng.choice(["auto", None])
         cfgd["batch_size"] = bs
         graph = G.make_graph(gd, cfgd)
         k = rng.randint(1, 12)
@@ -83,7 +94,8 @@ def run(ctx):
             gd = {"kind": "perm", "gens": gens, "central": central}
             _, dist = G.ref_bfs(gd, [central])
             start = list(rng.choice(sorted(dist)))
-            graph = G.make_graph(gd, {"bit_encoding_width": rng.choice(["auto", None])})
+            # also code widths so wide that every symbol fills a word of its own (encoded size = state size, yet the words are codes, not symbols)
+            graph = G.make_graph(gd, {"bit_encoding_width": rng.choice(["auto", None, 63, 62, 60, 33])})
             for mode in ("simple",):                 # the scoring rule of the simple mode (score a layer once it has beam_width states) is the one modelled in Beam.v
                 width = rng.choice([1, 2, 3])
                 r = graph.beam_search(start_state=start, beam_mode=mode, beam_width=width, max_steps=3)
